@@ -93,3 +93,8 @@ func sameBytes(id string, a, b []byte) {
 func verifBareConn(cfg *Config, isClient bool) *Conn {
 	return &Conn{conn: &verifConn{}, config: cfg, isClient: isClient}
 }
+
+// handshake header length of this stack, and the extra bytes a ClientHello carries between session id and
+// cipher suites (the datagram stack's empty cookie vector)
+const vhsHeaderLen = 4
+const vhsHelloExtra = 0
